@@ -35,6 +35,7 @@ type ConcState struct {
 	// plain local → the value last stored)
 	alias map[ssa.Value]ssa.Value
 	mem   map[*ssa.Alloc]ssa.Value
+	tup   map[*ssa.Call][]ssa.Value // results of an inlined multi-result helper call
 	cfg   *ConcCfg
 }
 
@@ -93,6 +94,12 @@ func (st *ConcState) clone() *ConcState {
 	}
 	for k, v := range st.mem {
 		n.mem[k] = v
+	}
+	if len(st.tup) > 0 {
+		n.tup = make(map[*ssa.Call][]ssa.Value, len(st.tup))
+		for k, v := range st.tup {
+			n.tup[k] = v
+		}
 	}
 	for k, v := range st.ints {
 		n.ints[k] = v
@@ -236,6 +243,8 @@ type ConcCfg struct {
 	Conc func(desc string) (int64, bool)
 	// Event names an instruction of interest ("" otherwise).
 	Event func(in ssa.Instruction, st *ConcState) string
+	// Branch names a condition that could not be evaluated, once per side ("" to ignore it).
+	Branch func(cond ssa.Value, taken bool, st *ConcState) string
 	// Inline decides whether an eligible helper is explored; nil: all.
 	Inline    func(h *ssa.Function) bool
 	MaxStates int
@@ -289,6 +298,13 @@ func ConcPaths(fn *ssa.Function, cfg ConcCfg) (seqs []string, truncated bool) {
 		}
 		for v, k := range st.alias {
 			facts = append(facts, vkey(v)+">"+vkey(k))
+		}
+		for v, k := range st.tup {
+			f := vkey(v) + "="
+			for _, r := range k {
+				f += vkey(r) + "/"
+			}
+			facts = append(facts, f)
 		}
 		sort.Strings(facts)
 		sb.WriteString(strings.Join(facts, ","))
@@ -387,6 +403,14 @@ func ConcPaths(fn *ssa.Function, cfg ConcCfg) (seqs []string, truncated bool) {
 					st = st.clone()
 					st.mem[a] = x.Val
 				}
+			case *ssa.Extract:
+				if call, ok := x.Tuple.(*ssa.Call); ok {
+					if res, has := st.tup[call]; has && x.Index < len(res) {
+						ns := st.clone()
+						bind(ns, st, x, res[x.Index])
+						st = ns
+					}
+				}
 			case *ssa.UnOp:
 				if a, ok := x.X.(*ssa.Alloc); ok && x.Op == token.MUL && plainLocal(a) {
 					if val, has := st.mem[a]; has {
@@ -428,6 +452,10 @@ func ConcPaths(fn *ssa.Function, cfg ConcCfg) (seqs []string, truncated bool) {
 						bind(ns, st, top.call, x.Results[0])
 					} else {
 						bind(ns, st, top.call, nil)
+						if ns.tup == nil {
+							ns.tup = map[*ssa.Call][]ssa.Value{}
+						}
+						ns.tup[top.call] = append([]ssa.Value{}, x.Results...)
 					}
 					run(top.blk, top.idx, ev, stack[:len(stack)-1], ns)
 					return
@@ -446,8 +474,17 @@ func ConcPaths(fn *ssa.Function, cfg ConcCfg) (seqs []string, truncated bool) {
 					}
 					return
 				}
-				enter(blk, blk.Succs[0], ev, stack, refine(st, x.Cond, true))
-				enter(blk, blk.Succs[1], ev, stack, refine(st, x.Cond, false))
+				evT, evF := ev, ev
+				if cfg.Branch != nil {
+					if e := cfg.Branch(x.Cond, true, st); e != "" {
+						evT = append(append([]string{}, ev...), e)
+					}
+					if e := cfg.Branch(x.Cond, false, st); e != "" {
+						evF = append(append([]string{}, ev...), e)
+					}
+				}
+				enter(blk, blk.Succs[0], evT, stack, refine(st, x.Cond, true))
+				enter(blk, blk.Succs[1], evF, stack, refine(st, x.Cond, false))
 				return
 			case *ssa.Jump:
 				enter(blk, blk.Succs[0], ev, stack, st)
